@@ -15,11 +15,18 @@ DICE = ["d6148914691236517206", "3d6148914691236517206", "2d9223372036854775806k
         "[1,2,3].rand()", "[1,2,3,4].randSize(2)", "2d6+3c8*f", "x=3d6; y=x+b", "[2d6, 3c8, f]", "`{2d6} {3c8}`"]
 
 
+NESTED = ["func r(){ &hp = 3d1000; hp }; r()+r()", "func t(){ func u(){ &k = 2d1000; k }; u() }; t() + t()", "&o = d1000; &w = o + d1000; func t(){ &z = w + d1000; z }; t()",
+          "&o = d1000; func q(){ o }; q() + q()", "`{% &k = d1000; k %}` + `{% func m(){ &j = d1000; j }; m() %}`", "func t(a){ &c = a + 2d6; [c, c] }; t(1)",
+          "&o = 2d1000; &w = `{o} {% &i = d1000; i %}`; w", "func t(){ &c = [1,2,3,4,5].shuffle(); c }; t()", "func t(){ &c = 5a8 + 3c8 + f + b; c }; t()"]
+
+
 def make_inputs(rnd, n):
     out = []
     for i in range(n):
         k = rnd.randrange(10)
-        if k < 6:
+        if k < 2:
+            src = rnd.choice(NESTED)        # dice inside computed values evaluated from nested contexts (function bodies, other computed values)
+        elif k < 6:
             src = rnd.choice(DICE)
             if rnd.random() < 0.5:
                 src += rnd.choice([" + ", " - ", "; "]) + rnd.choice(DICE)
